@@ -565,7 +565,10 @@ def b_int(ip, st, x=0, base=None):
         except (ValueError, TypeError) as ex:
             _raise(type(ex), str(ex))
     if isinstance(x, SReal):
-        return V.trunc_real(x)
+        r = V.trunc_real(x)
+        if getattr(st.cfg, "rounding_hints", False):
+            _rounding_hint(st, x.e, r)
+        return r
     if isinstance(x, SBool):
         return mk_int(V._z(x))
     if isinstance(x, SInt):
@@ -578,6 +581,25 @@ def b_int(ip, st, x=0, base=None):
         return int(x)
     except (ValueError, TypeError) as ex:
         _raise(type(ex), str(ex))
+
+
+def _rounding_hint(st, xe, r):
+    """For the rounding idiom q = int(n / t + 0.5) with integer terms n, t: state the consequence
+    t > 0 and n >= 0  =>  2*t*q <= 2*n + t < 2*t*(q+1)
+    (q = floor(n/t + 1/2) multiplied out by 2t > 0) - a valid fact of real arithmetic, added only because the
+    solver's nonlinear reasoning finds it unreliably.  Switched on per contract (`rounding_hints = True`)."""
+    if not (z3.is_add(xe) and xe.num_args() == 2):
+        return
+    a, b = xe.arg(0), xe.arg(1)
+    if z3.is_rational_value(a):
+        a, b = b, a
+    if not (z3.is_rational_value(b) and b.numerator_as_long() == 1 and b.denominator_as_long() == 2 and z3.is_div(a)):
+        return
+    n, t = a.arg(0), a.arg(1)
+    if not (z3.is_to_real(n) and z3.is_to_real(t)):
+        return
+    n, t, q = n.arg(0), t.arg(0), V._z(r)
+    st.assume(z3.Implies(z3.And(t > 0, n >= 0), z3.And(2 * t * q <= 2 * n + t, 2 * n + t < 2 * t * (q + 1))))
 
 
 def b_float(ip, st, x=0.0):
